@@ -506,6 +506,14 @@ def run_tree(plan, tr):
             except Exception as e:
                 ok = False
         else:
+            if plan.get("other_first") and comb(n, k) > 1:
+                # another k-subset started preparing this input for ITS leaf and gave up; the live subset takes the input over
+                other_idx = next(c_ for c_ in combinations(range(n), k) if sorted(c_) != subset)
+                other_script = MultiSigTapScript([points[i] for i in other_idx], k)
+                other_cb = tree.control_block(internal, other_script.tap_leaf())
+                if other_cb is not None:
+                    tr.fault("input_first_initialised_for_another_subset")
+                    tx.initialize_p2tr_multisig(0, other_cb, other_script)
             tx.initialize_p2tr_multisig(0, cb, mine)
             sigs = [tx.get_sig_taproot(0, privs[subset[j]], ext_flag=1) for j in order]
             try:
@@ -553,7 +561,7 @@ def generate(ch, tier, prop):
         n = ch.choice([2, 2, 3, 3, 4, 5]) if tier == "thorough" else ch.choice([2, 2, 3, 3, 4])
         k = ch.randrange(1, n + 1)
         return {"mode": "tree", "n": n, "k": k, "keys": ch.sample(range(POOL), n), "subset": ch.sample(range(n), k), "order_seed": ch.randrange(1 << 30), "txid": ch.bytes(32).hex(), "vout": ch.randrange(4),
-                "amount": ch.choice([1000, 100000, 10**8]), "nonce": {"mode": "seeded", "seed": ch.randrange(1 << 30)}, "all_subsets": tier == "thorough" and ch.chance(0.5), "steps": [],
+                "amount": ch.choice([1000, 100000, 10**8]), "nonce": {"mode": "seeded", "seed": ch.randrange(1 << 30)}, "all_subsets": tier == "thorough" and ch.chance(0.5), "steps": [], "other_first": ch.chance(0.3),
                 "later": [] if ch.chance(0.5) else [dict({"fn": ch.choice(LATER_FNS)}, **ch.choice([{}, {"sequence": ch.choice([1, 144, 65535])}, {"locktime": ch.choice([1, 500000, 1700000000])}])) for _ in range(ch.randrange(1, 3))]}
     n = ch.choice([2, 2, 2, 3, 3, 4]) if tier == "quick" else ch.choice([2, 2, 3, 3, 4, 5])
     fault_free = ch.chance(0.35)
@@ -606,6 +614,10 @@ def enumerate_plans(tier, prop, seed):
                 yield {"mode": "session", "n": n, "keys": r.sample(range(POOL), n), "order_seed": r.randrange(1 << 30), "nonce": {"mode": "seeded", "seed": r.randrange(1 << 30)}, "reuse_objects": True, "steps": [],
                        "sessions": [{"msg": "%064x" % 5, "merkle": merkle, "faults": f, "agg": 0, "order_seed": 1}, {"msg": "%064x" % 5, "merkle": merkle, "faults": [], "agg": 0, "order_seed": 2, "retry": True},
                                     {"msg": "%064x" % 5, "merkle": merkle, "faults": [], "agg": 1, "order_seed": 3, "retry": True}], "enum": "retry"}
+    # an input first initialised for another subset's leaf
+    for (k_, n_) in ((1, 2), (2, 3), (2, 4), (3, 4)):
+        yield {"mode": "tree", "n": n_, "k": k_, "keys": r.sample(range(POOL), n_), "subset": r.sample(range(n_), k_), "order_seed": r.randrange(1 << 30), "txid": "33" * 32, "vout": 0, "amount": 100000,
+               "nonce": {"mode": "seeded", "seed": r.randrange(1 << 30)}, "all_subsets": False, "steps": [], "other_first": True, "kind": "multisig", "enum": "other-first"}
     # later trees from the same dealer object: every function x timelock argument, both leaf kinds
     for fn in sorted(set(LATER_FNS)):
         for arg in ({}, {"sequence": 144}, {"locktime": 500000}):
